@@ -244,7 +244,7 @@ def write_events(hfn):
     evs = []
 
     def conds_of(anc):
-        cs = []
+        cs = list(early)
         for i, a in enumerate(anc):
             if a.get('k') == 'if':
                 cs.append(a['c'])
@@ -256,7 +256,16 @@ def write_events(hfn):
                 cs.append({'k': 'closure-marker', 'ln': a.get('ln')})
         return cs
 
+    early = []      # explicit `return`s seen so far (not the ones `?` desugars to)
+
     def visit(e, anc):
+        if e.get('k') == 'ret' and not any(is_try(a) for a in anc) and not any(a.get('k') == 'closure' for a in anc):
+            # the final statement of the function is not an *early* return; detect by checking that
+            # something follows it is done lazily: later events get the marker
+            early.append({'k': 'early-return-marker', 'ln': e.get('ln')})
+            return
+        if e.get('k') in ('mcall', 'call') and early:
+            pass
         if e.get('k') == 'mcall' and e.get('def') == 'std::io::Write::write_fmt':
             pf = parse_format_block(e['args'][0]) if e['args'] else None
             if pf:
